@@ -103,9 +103,16 @@ Definition waitack (w : writer) := waitackp (pc w).
 Definition replydue (w : writer) := replyduep (pc w).
 Definition ackdue (w : writer) := ackduep (pc w).
 
-(* in the merge loop no overflow has happened yet *)
+(* local facts: in the merge loop no overflow has happened yet; merged counts the replies sent;
+   the loop counter of unlockWrite never exceeds merged *)
+Definition wf_ctx (c : lctx) : Prop := length (lreplied c) = lmerged c.
 Definition wf_pc (p : wpc) : Prop :=
-  match p with WLMerge c | WLReply c _ => lover c = None | _ => True end.
+  match p with
+  | WLMerge c | WLReply c _ => lover c = None /\ wf_ctx c
+  | WLJournal c | WLApply c | WLPublish c | WLRotate c => wf_ctx c
+  | WLUnlock c k _ => wf_ctx c /\ k <= lmerged c
+  | _ => True
+  end.
 Definition wf_writer (w : writer) : Prop := wf_pc (pc w).
 
 Definition b2n (b : bool) : nat := if b then 1 else 0.
@@ -199,18 +206,18 @@ Ltac split_ifs :=
 
 Ltac wf_facts Hw :=
   repeat match goal with
-  | Hi : nth_error _ ?i = Some ?w, Ep : pc ?w = WLMerge ?c |- _ =>
+  | Hi : nth_error _ ?i = Some ?w, Ep : pc ?w = ?p |- _ =>
       lazymatch goal with
-      | _ : lover c = None |- _ => fail
-      | _ => let Hx := fresh "Hov" in
-             pose proof (Forall_nth _ _ _ _ Hw Hi) as Hx; unfold wf_writer in Hx; rewrite Ep in Hx; cbn [wf_pc] in Hx
+      | _ : wf_pc p |- _ => fail
+      | _ => let Hx := fresh "Hwf" in
+             pose proof (Forall_nth _ _ _ _ Hw Hi) as Hx; unfold wf_writer in Hx; rewrite Ep in Hx
       end
-  | Hi : nth_error _ ?i = Some ?w, Ep : pc ?w = WLReply ?c _ |- _ =>
-      lazymatch goal with
-      | _ : lover c = None |- _ => fail
-      | _ => let Hx := fresh "Hov" in
-             pose proof (Forall_nth _ _ _ _ Hw Hi) as Hx; unfold wf_writer in Hx; rewrite Ep in Hx; cbn [wf_pc] in Hx
-      end
+  end;
+  repeat match goal with
+  | Hx : wf_pc _ |- _ => cbn [wf_pc] in Hx; unfold wf_ctx in Hx
+  end;
+  repeat match goal with
+  | Hx : _ /\ _ |- _ => destruct Hx
   end.
 
 Ltac use_over :=
@@ -240,7 +247,10 @@ Lemma step_inv s a s' : inv s -> step mp s a = Some s' -> inv s'.
 Proof.
   intros [Hl Hr Ha Hw Hc Hh] H. destruct a; unfold step, getw in H; dm; inversion H; subst; clear H; wf_facts Hw;
   (constructor; open_state; auto; [ counts .. ]).
-  all: try (split_ifs; apply Forall_upd; auto; try apply Forall_upd; auto; unfold wf_writer; cbn; auto; exact I).
+  all: try (split_ifs; apply Forall_upd; auto; try apply Forall_upd; auto; unfold wf_writer; ltbs;
+            cbn [pc set_pc wf_pc]; unfold wf_ctx;
+            cbn [lover lmerged lreplied after_reply ctx0 length]; rewrite ?app_length;
+            cbn [length]; repeat split; auto; try lia; exact I).
   all: intros _ _; destruct (hpc s); cbn in *; auto; discriminate.
 Qed.
 
@@ -258,3 +268,324 @@ Lemma reachable_inv n s : reachable n s -> inv s.
 Proof. intros [l H]. eapply run_inv; [apply inv_init|eauto]. Qed.
 
 End Proofs.
+
+(* ------------------------------------------------------------------ consequences of the counting invariant *)
+
+Lemma sumf_zero {A} (f : A -> nat) l : (forall j v, nth_error l j = Some v -> f v = 0) -> sumf f l = 0.
+Proof.
+  induction l; simpl; intros H; auto.
+  rewrite (H 0 a eq_refl). rewrite IHl; auto. intros j v Hj. apply (H (S j) v Hj).
+Qed.
+
+Lemma sumf_single {A} (f : A -> nat) l i w :
+  nth_error l i = Some w -> (forall j v, j <> i -> nth_error l j = Some v -> f v = 0) -> sumf f l = f w.
+Proof.
+  revert i; induction l; destruct i; simpl; intros H Hz; try discriminate.
+  - inversion H; subst. rewrite (sumf_zero f l); [lia|].
+    intros j v Hj. apply (Hz (S j) v); [discriminate|exact Hj].
+  - rewrite (Hz 0 a); [|discriminate|reflexivity]. simpl. apply (IHl i); auto.
+    intros j v Hn Hj. apply (Hz (S j) v); [congruence|exact Hj].
+Qed.
+
+Lemma holdsp_le1 p : holdsp p <= 1.
+Proof. destruct p; simpl; lia. Qed.
+
+Lemma replydue_holds p : holdsp p = 0 -> replyduep p = 0.
+Proof. destruct p; simpl; auto; discriminate. Qed.
+
+Lemma ackdue_holds p : holdsp p = 0 -> ackduep p = 0.
+Proof. destruct p; simpl; auto; discriminate. Qed.
+
+Lemma owners_le1 s : inv s -> owners s <= 1.
+Proof. intros H. rewrite (inv_lock s H). destruct (lock s); simpl; lia. Qed.
+
+(* a writer that owns the lock is the only owner *)
+Lemma only_leader s l wl : inv s -> nth_error (ws s) l = Some wl -> holds wl = 1 ->
+  (forall j w, j <> l -> nth_error (ws s) j = Some w -> holds w = 0) /\
+  cr s = 0 /\ tflush s = 0 /\ topen s = 0 /\ tleak s = 0 /\ close_holds s = 0 /\ cwl s = false /\ lock s = true.
+Proof.
+  intros Hi Hl H1. pose proof (owners_le1 s Hi) as Ho. pose proof (inv_lock s Hi) as Hk. unfold owners in *.
+  pose proof (sumf_ge holds _ _ _ Hl).
+  split.
+  - intros j w Hn Hj. pose proof (sumf_two holds _ _ _ _ _ Hj Hl Hn). lia.
+  - destruct (cwl s); destruct (lock s); simpl in *; repeat split; try lia.
+Qed.
+
+Lemma leader_sums s l wl : inv s -> nth_error (ws s) l = Some wl -> holds wl = 1 ->
+  sumf mwait (ws s) = replydue wl /\ sumf waitack (ws s) = ackdue wl.
+Proof.
+  intros Hi Hl H1. destruct (only_leader s l wl Hi Hl H1) as [Ho _].
+  rewrite (inv_reply s Hi), (inv_ack s Hi). split; apply (sumf_single _ _ l); auto; intros j v Hn Hj.
+  - apply replydue_holds. apply (Ho j v); auto.
+  - apply ackdue_holds. apply (Ho j v); auto.
+Qed.
+
+Lemma no_leader_sums s : inv s -> sumf holds (ws s) = 0 ->
+  sumf mwait (ws s) = 0 /\ sumf waitack (ws s) = 0.
+Proof.
+  intros Hi H0. rewrite (inv_reply s Hi), (inv_ack s Hi).
+  assert (Hz : forall j v, nth_error (ws s) j = Some v -> holds v = 0).
+  { intros j v Hj. pose proof (sumf_ge holds _ _ _ Hj). lia. }
+  split; apply sumf_zero; intros j v Hj; [apply replydue_holds | apply ackdue_holds]; apply (Hz j v Hj).
+Qed.
+
+Lemma find_measure (f : writer -> nat) (p : wpc -> nat) l :
+  (forall w, f w = p (pc w)) -> 0 < sumf f l -> exists i w, nth_error l i = Some w /\ 0 < p (pc w).
+Proof. intros Hf H. destruct (sumf_pos f l H) as (i & w & Hi & Hw). exists i, w. rewrite <- Hf. auto. Qed.
+
+Lemma mwaitp_pos p : 0 < mwaitp p -> p = WWaitMerged.
+Proof. destruct p; simpl; auto; lia. Qed.
+Lemma waitackp_pos p : 0 < waitackp p -> p = WWaitAck.
+Proof. destruct p; simpl; auto; lia. Qed.
+
+Section Theorems.
+Variable mp : mparams.
+
+(* --- mutex *)
+Theorem mutex_owners n s : reachable mp n s ->
+  owners s <= 1 /\ (lock s = true -> owners s = 1) /\ (lock s = false -> owners s = 0).
+Proof.
+  intros R. pose proof (reachable_inv mp n s R) as Hi. pose proof (inv_lock s Hi) as Hk.
+  repeat split; [apply owners_le1; auto | |]; intros E; rewrite E in Hk; auto.
+Qed.
+
+Theorem mutex_writers n s i j wi wj : reachable mp n s ->
+  nth_error (ws s) i = Some wi -> nth_error (ws s) j = Some wj -> holds wi = 1 -> holds wj = 1 -> i = j.
+Proof.
+  intros R Hi Hj H1 H2. pose proof (reachable_inv mp n s R) as Hv.
+  destruct (Nat.eq_dec i j); auto. exfalso.
+  destruct (only_leader s i wi Hv Hi H1) as [Ho _]. rewrite (Ho j wj) in H2; auto. discriminate.
+Qed.
+
+(* --- every blocking send of the leader has a receiver waiting *)
+Theorem reply_has_receiver n s l wl c x : reachable mp n s ->
+  nth_error (ws s) l = Some wl -> pc wl = WLReply c x ->
+  exists i, step mp s (AReplyTrue l i) <> None.
+Proof.
+  intros R Hl Hp. pose proof (reachable_inv mp n s R) as Hv.
+  assert (H1 : holds wl = 1) by (unfold holds; rewrite Hp; auto).
+  destruct (leader_sums s l wl Hv Hl H1) as [Hm _]. unfold replydue in Hm. rewrite Hp in Hm. simpl in Hm.
+  destruct (find_measure mwait mwaitp (ws s)) as (i & w & Hi & Hw); [reflexivity | lia |].
+  apply mwaitp_pos in Hw. exists i. unfold step, getw. rewrite Hl, Hi, Hp, Hw. discriminate.
+Qed.
+
+Theorem ack_receivers n s l wl c k e : reachable mp n s ->
+  nth_error (ws s) l = Some wl -> pc wl = WLUnlock c k e ->
+  sumf waitack (ws s) = lmerged c - k /\ k <= lmerged c.
+Proof.
+  intros R Hl Hp. pose proof (reachable_inv mp n s R) as Hv.
+  assert (H1 : holds wl = 1) by (unfold holds; rewrite Hp; auto).
+  destruct (leader_sums s l wl Hv Hl H1) as [_ Ha]. unfold ackdue in Ha. rewrite Hp in Ha. simpl in Ha.
+  split; auto. pose proof (Forall_nth _ _ _ _ (inv_wf s Hv) Hl) as Hw. unfold wf_writer in Hw. rewrite Hp in Hw. apply Hw.
+Qed.
+
+Theorem ack_has_receiver n s l wl c k e : reachable mp n s ->
+  nth_error (ws s) l = Some wl -> pc wl = WLUnlock c k e -> k < lmerged c ->
+  exists i, step mp s (AAck l i) <> None.
+Proof.
+  intros R Hl Hp Hk. destruct (ack_receivers n s l wl c k e R Hl Hp) as [Ha _].
+  destruct (find_measure waitack waitackp (ws s)) as (i & w & Hi & Hw); [reflexivity | lia |].
+  apply waitackp_pos in Hw. exists i. unfold step, getw. rewrite Hl, Hi, Hp, Hw.
+  apply Nat.ltb_lt in Hk. rewrite Hk. discriminate.
+Qed.
+
+(* --- end of a group: hand-over to exactly one waiting writer, or release; never both, never neither *)
+Theorem unlock_end n s l wl c k e : reachable mp n s ->
+  nth_error (ws s) l = Some wl -> pc wl = WLUnlock c k e -> lmerged c <= k ->
+  sumf waitack (ws s) = 0 /\
+  match lover c with
+  | Some _ => step mp s (ARelease l) = None /\ sumf mwait (ws s) = 1 /\ exists o, step mp s (AHandover l o) <> None
+  | None => step mp s (ARelease l) <> None /\ sumf mwait (ws s) = 0 /\ forall o, step mp s (AHandover l o) = None
+  end.
+Proof.
+  intros R Hl Hp Hk. pose proof (reachable_inv mp n s R) as Hv.
+  assert (H1 : holds wl = 1) by (unfold holds; rewrite Hp; auto).
+  destruct (leader_sums s l wl Hv Hl H1) as [Hm Ha]. unfold replydue, ackdue in *. rewrite Hp in *. simpl in *.
+  destruct (only_leader s l wl Hv Hl H1) as (_ & _ & _ & _ & _ & _ & _ & Hlk).
+  assert (Hkb : (k <? lmerged c) = false) by (apply Nat.ltb_ge; auto).
+  split; [lia|]. unfold ctx_over in Hm. destruct (lover c) eqn:Eo.
+  - split; [unfold step, getw; rewrite Hl, Hp, Hkb, Eo; auto|]. split; auto.
+    destruct (find_measure mwait mwaitp (ws s)) as (o & w & Ho & Hw); [reflexivity | lia |].
+    apply mwaitp_pos in Hw. exists o. unfold step, getw. rewrite Hl, Ho, Hp, Hw, Hkb, Eo. discriminate.
+  - split; [unfold step, getw; rewrite Hl, Hp, Hkb, Eo, Hlk; discriminate|]. split; auto.
+    intros o. unfold step, getw. rewrite Hl, Hp. destruct (nth_error (ws s) o); auto. destruct (pc w); auto.
+    rewrite Hkb, Eo; auto.
+Qed.
+
+Theorem handover_step n s l o s' : reachable mp n s -> step mp s (AHandover l o) = Some s' ->
+  lock s' = true /\ owners s' = 1 /\
+  (exists wo, nth_error (ws s') o = Some wo /\ pc wo = WLFlush) /\
+  (forall j w, j <> o -> nth_error (ws s') j = Some w -> holds w = 0) /\
+  sumf mwait (ws s) = 1.
+Proof.
+  intros R H. pose proof (reachable_inv mp n s R) as Hv. pose proof (step_inv mp _ _ _ Hv H) as Hv'.
+  unfold step, getw in H. dm. inversion H; subst; clear H.
+  assert (Hn : o <> l) by (apply (pcs_differ (ws s) o l w0 w E0 E); congruence).
+  assert (H1 : holds w = 1) by (unfold holds; rewrite E1; auto).
+  destruct (only_leader s l w Hv E H1) as (_ & _ & _ & _ & _ & _ & _ & Hlk).
+  destruct (leader_sums s l w Hv E H1) as [Hm _]. unfold replydue in Hm. rewrite E1 in Hm. simpl in Hm.
+  unfold ctx_over in Hm. rewrite E4 in Hm.
+  set (s' := with_logs _ _ _ _ _ _) in *.
+  assert (Ho : nth_error (ws s') o = Some (set_pc w0 WLFlush)).
+  { simpl. rewrite nth_upd_other by auto. eapply nth_upd_same; eauto. }
+  assert (H2 : holds (set_pc w0 WLFlush) = 1) by reflexivity.
+  destruct (only_leader s' o _ Hv' Ho H2) as (Hoth & _ & _ & _ & _ & _ & _ & Hlk').
+  pose proof (inv_lock s' Hv') as Hk. rewrite Hlk' in Hk.
+  repeat split; auto. eexists; split; eauto.
+Qed.
+
+Theorem release_step n s l s' : reachable mp n s -> step mp s (ARelease l) = Some s' ->
+  lock s' = false /\ owners s' = 0 /\ sumf mwait (ws s) = 0.
+Proof.
+  intros R H. pose proof (reachable_inv mp n s R) as Hv. pose proof (step_inv mp _ _ _ Hv H) as Hv'.
+  pose proof (inv_lock s' Hv') as Hk.
+  unfold step, getw in H. dm. inversion H; subst; clear H.
+  assert (H1 : holds w = 1) by (unfold holds; rewrite E0; auto).
+  destruct (leader_sums s l w Hv E H1) as [Hm _]. unfold replydue in Hm. rewrite E0 in Hm. simpl in Hm.
+  unfold ctx_over in Hm. rewrite E2 in Hm.
+  simpl in *. repeat split; auto.
+Qed.
+
+End Theorems.
+
+(* ------------------------------------------------------------------ deadlock freedom *)
+
+Definition pending (w : writer) : bool := match pc w with WIdle | WDone _ => false | _ => true end.
+
+Lemma holdsp_cases p : holdsp p = 0 \/ holdsp p = 1.
+Proof. destruct p; simpl; auto. Qed.
+
+Section Progress.
+Variable mp : mparams.
+
+(* a writer that owns the lock can always move *)
+Lemma leader_enabled s l wl : inv s -> nth_error (ws s) l = Some wl -> holds wl = 1 ->
+  exists a, arrival a = false /\ step mp s a <> None.
+Proof.
+  intros Hv Hl H1.
+  destruct (leader_sums s l wl Hv Hl H1) as [Hm Ha].
+  destruct (only_leader s l wl Hv Hl H1) as (_ & _ & _ & _ & _ & _ & _ & Hlk).
+  unfold holds, replydue, ackdue in *. destruct (pc wl) eqn:Hp; simpl in *; try discriminate.
+  - exists (AFlushOk l 0%N). split; auto. unfold step, getw. rewrite Hl, Hp. discriminate.
+  - exists (AMergeDone l). split; auto. unfold step, getw. rewrite Hl, Hp. discriminate.
+  - destruct (find_measure mwait mwaitp (ws s)) as (i & w & Hi & Hw); [reflexivity | lia |].
+    apply mwaitp_pos in Hw. exists (AReplyTrue l i). split; auto. unfold step, getw. rewrite Hl, Hi, Hp, Hw. discriminate.
+  - exists (AJournalOk l). split; auto. unfold step, getw. rewrite Hl, Hp. discriminate.
+  - exists (AApply l). split; auto. unfold step, getw. rewrite Hl, Hp. discriminate.
+  - exists (APublish l). split; auto. unfold step, getw. rewrite Hl, Hp. discriminate.
+  - destruct (lown c <? lfree c)%N eqn:Er.
+    + exists (ARotateSkip l). split; auto. unfold step, getw. rewrite Hl, Hp, Er. discriminate.
+    + exists (ARotateOk l). split; auto. unfold step, getw. rewrite Hl, Hp, Er. discriminate.
+  - destruct (i <? lmerged c) eqn:Ek.
+    + apply Nat.ltb_lt in Ek.
+      destruct (find_measure waitack waitackp (ws s)) as (j & w & Hj & Hw); [reflexivity | lia |].
+      apply waitackp_pos in Hw. exists (AAck l j). split; auto. unfold step, getw. rewrite Hl, Hj, Hp, Hw.
+      apply Nat.ltb_lt in Ek. rewrite Ek. discriminate.
+    + unfold ctx_over in Hm. destruct (lover c) eqn:Eo.
+      * destruct (find_measure mwait mwaitp (ws s)) as (o & w & Ho & Hw); [reflexivity | lia |].
+        apply mwaitp_pos in Hw. exists (AHandover l o). split; auto. unfold step, getw.
+        rewrite Hl, Ho, Hp, Hw, Ek, Eo. discriminate.
+      * exists (ARelease l). split; auto. unfold step, getw. rewrite Hl, Hp, Ek, Eo, Hlk. discriminate.
+Qed.
+
+(* No pending writer is ever stuck: in every reachable state in which some call is in progress, an
+   action other than the arrival of a new call is enabled — provided no OpenTransaction has
+   returned an error with the lock held (tleak = 0; see txn_leak_deadlock for what happens
+   otherwise: goleveldb's OpenTransaction error paths do leak the lock). *)
+Theorem no_lost_writer n s : reachable mp n s -> tleak s = 0 ->
+  (exists i w, nth_error (ws s) i = Some w /\ pending w = true) ->
+  exists a, arrival a = false /\ step mp s a <> None.
+Proof.
+  intros R Hleak (i & w & Hi & Hp). pose proof (reachable_inv mp n s R) as Hv.
+  destruct (Nat.eq_dec (sumf holds (ws s)) 0) as [H0|H0].
+  - destruct (no_leader_sums s Hv H0) as [Hm Ha].
+    assert (Hh : holds w = 0) by (pose proof (sumf_ge holds _ _ _ Hi); lia).
+    assert (Hmw : mwait w = 0) by (pose proof (sumf_ge mwait _ _ _ Hi); lia).
+    assert (Haw : waitack w = 0) by (pose proof (sumf_ge waitack _ _ _ Hi); lia).
+    unfold pending, holds, mwait, waitack in Hp, Hh, Hmw, Haw. destruct (pc w) eqn:Epc; simpl in Hp, Hh, Hmw, Haw; try discriminate.
+    + (* WSelect *)
+      destruct (lock s) eqn:Elk.
+      * pose proof (inv_lock s Hv) as Hk. rewrite Elk in Hk. unfold owners in Hk. simpl in Hk.
+        destruct (cr s) eqn:Ecr.
+        2:{ exists ACRRelease. split; auto. unfold step. rewrite Ecr, Elk. discriminate. }
+        destruct (tflush s) eqn:Etf.
+        2:{ exists ATxnFlushOk. split; auto. unfold step. rewrite Etf. discriminate. }
+        destruct (topen s) eqn:Eto.
+        2:{ exists ATxnDone. split; auto. unfold step. rewrite Eto, Elk. discriminate. }
+        unfold close_holds in Hk. destruct (cpc s) eqn:Ec.
+        4:{ exists (ASelClosed i). split; auto. unfold step, getw, closed. rewrite Hi, Epc, Ec. discriminate. }
+        all: destruct (cwl s) eqn:Ew; simpl in Hk; try lia.
+        all: destruct (hpc s) eqn:Eh.
+        all: try (exists (ASelPerr i); split; auto; unfold step, getw; rewrite Hi, Epc, Eh; discriminate).
+        all: try (pose proof (inv_hexit s Hv Eh) as Hx; unfold closed in Hx; rewrite Ec in Hx; discriminate).
+        all: try (exists (ASelClosed i); split; auto; unfold step, getw, closed; rewrite Hi, Epc, Ec; discriminate).
+        all: destruct (ropend s) eqn:Er;
+          try (exists AROSend; split; auto; unfold step; rewrite Er, Eh; discriminate).
+        all: pose proof (inv_cwl s Hv Ew Er) as Hx; unfold closed in Hx; rewrite Ec, Eh in Hx;
+          destruct Hx; discriminate.
+      * exists (ASelLock i). split; auto. unfold step, getw. rewrite Hi, Epc, Elk. discriminate.
+    + exists (AReturn i). split; auto. unfold step, getw. rewrite Hi, Epc. discriminate.
+  - assert (Hpos : 0 < sumf holds (ws s)) by lia.
+    destruct (sumf_pos holds _ Hpos) as (l & wl & Hl & H1).
+    assert (holds wl = 1) by (unfold holds in *; destruct (holdsp_cases (pc wl)); lia).
+    eapply leader_enabled; eauto.
+Qed.
+
+End Progress.
+
+(* ------------------------------------------------------------------ the leak of OpenTransaction's error paths *)
+
+Section Leak.
+Variable mp : mparams.
+
+(* goleveldb's OpenTransaction returns on a rotateMem / waitCompaction error without releasing
+   the write lock.  In the model this is ATxnFlushFail, and it does strand writers: *)
+Theorem txn_leak_deadlock :
+  exists l s, run mp (init 1) l = Some s /\ tleak s = 1 /\
+    (exists w, nth_error (ws s) 0 = Some w /\ pending w = true) /\
+    forall a, arrival a = false -> step mp s a = None.
+Proof.
+  exists [ATxnAcquire; ATxnFlushFail; ACall 0 true false 10%N]. eexists. split; [vm_compute; reflexivity|].
+  split; [reflexivity|]. split; [eexists; split; reflexivity|].
+  intros a Ha. destruct a; try discriminate; unfold step, getw; cbn [ws lock cpc hpc cwl ropend cr tflush topen tleak closed];
+    repeat match goal with
+    | |- context [nth_error _ ?i] => is_var i; destruct i as [|[|?]]; cbn [nth_error pc]
+    end; auto.
+Qed.
+
+End Leak.
+
+(* ------------------------------------------------------------------ finished groups: exactly merged acknowledgements *)
+
+Definition gok (g : grec) : Prop := g_acks g = g_merged g /\ length (g_replied g) = g_merged g.
+
+Section Groups.
+Variable mp : mparams.
+
+Lemma step_glog s a s' : inv s -> Forall gok (glog s) -> step mp s a = Some s' -> Forall gok (glog s').
+Proof.
+  intros Hv Hg H. pose proof (inv_wf s Hv) as Hw.
+  destruct a; unfold step, getw in H; dm; inversion H; subst; clear H; simpl; auto.
+  - wf_facts Hw. ltbs. apply Forall_app; split; auto. constructor; auto. split; simpl; auto. lia.
+  - wf_facts Hw. ltbs. apply Forall_app; split; auto. constructor; auto. split; simpl; auto. lia.
+Qed.
+
+Lemma run_glog l : forall s s', inv s -> Forall gok (glog s) -> run mp s l = Some s' -> Forall gok (glog s').
+Proof.
+  induction l; simpl; intros s s' Hi Hg H.
+  - inversion H; subst; auto.
+  - destruct (step mp s a) eqn:E; try discriminate. eapply IHl; [| |eauto].
+    + eapply step_inv; eauto.
+    + eapply step_glog; eauto.
+Qed.
+
+(* every finished unlockWrite has sent exactly `merged` acknowledgements, one per `true` reply *)
+Theorem ack_count_finished n s g : reachable mp n s -> In g (glog s) ->
+  g_acks g = g_merged g /\ length (g_replied g) = g_merged g.
+Proof.
+  intros [l H] Hin. assert (Hg : Forall gok (glog s)).
+  { eapply run_glog; [apply inv_init| |eauto]. constructor. }
+  rewrite Forall_forall in Hg. apply Hg; auto.
+Qed.
+
+End Groups.
